@@ -168,7 +168,7 @@ func c08D08b(c *c08Run) {
 		ctx.Tag("d08b:dense")
 		c.pair(v, t, true)
 	}
-	// the witnesses of `C08.idempotent_counterexample` and `C08.conforming_converts_to_itself_counterexample`
+	// the former witnesses of empty-collection-keeps-nested-placeholder, kept as regression cases (`C08.idempotent_empty_witness`, `C08.conforming_converts_to_itself_empty_witness`)
 	ctx.Tag("d08b:witness")
 	c.pair(cty.TupleVal([]cty.Value{
 		cty.MapVal(map[string]cty.Value{"m": cty.ListVal([]cty.Value{cty.StringVal("x")})}),
